@@ -679,7 +679,7 @@ pub fn run(run: &Run) {
     });
 
     // ---- random compositions: well-typed controls and single ill-typed mutations
-    let n = run.opts.size(100_000, 8_000_000);
+    let n = run.opts.size(100_000, 3_000_000);
     run.parallel("random", n, |i, l| {
         let mut r = Rng::derive(seed, "c04-r", i);
         let mut cfg = GenCfg::full();
@@ -718,7 +718,7 @@ pub fn run(run: &Run) {
     });
 
     // ---- random value expressions: static type and result type
-    let n = run.opts.size(40_000, 3_000_000);
+    let n = run.opts.size(40_000, 1_000_000);
     run.parallel("values", n, |i, l| {
         let mut r = Rng::derive(seed, "c04-v", i);
         let mut g = FilterGen::new(env, GenCfg::full(), Rng::derive(seed, "c04-vg", i));
